@@ -458,10 +458,8 @@ class Gen:
         k = r.choice(self.profile['num'])
         self.hit('num:' + k)
         if k == 'abs':
-            a = self.num(m, xs, depth - 1)
-            if a[0] == 'n':
-                a = self.lin(m, xs, 1)       # abs(<negative constant>) is mis-flattened to variable 0 (conversion defect, not C07)
-            return ('abs', a)
+            # abs(<negative constant>) used to be flattened to variable 0 (fixed in /repo 15ae342): generated again
+            return ('abs', self.num(m, xs, depth - 1))
         if k in ('min', 'max'):
             return (k, [self.num(m, xs, depth - 1) for _ in range(r.rint(2, 3))])
         if k == 'mul':
@@ -1193,7 +1191,7 @@ def proof_stage(ck):
     return ok, failing
 
 
-EXPECT_THEOREMS = 27
+EXPECT_THEOREMS = 26
 
 
 def run(ck):
